@@ -13,6 +13,20 @@ CHECKS = {
             "\\u escapes (upper/lower hex, embedded, as key) in UTF-8/16/32/wchar_t builds and compared with python's "
             "codecs; the input space is finite and enumerated completely, so this is as strong as runtime monitoring gets.",
             "python3 codecs are the reference; ASan/UBSan only see the executed paths", "3/C20"),
+    "C09": ("runtime differential monitor against glibc strtod + exact 128-bit integer classification, ASan/UBSan on exact-size buffers",
+            "Generated numerals of the stated grammar (12 families incl. exact halfway points between adjacent doubles, "
+            "2^63/2^64 boundaries, 400-digit mantissas, overflow and subnormal ranges, must-reject malformed forms) are "
+            "converted by the real code and compared with a correctly rounded reference; sampling of an infinite domain.",
+            "glibc strtod is correctly rounded; numerals below half the smallest subnormal are outside the quantifier as read", "3/C09"),
+    "C10": ("runtime differential monitor against glibc snprintf with mismatch classification; exhaustive float sweep in the thorough tier",
+            "Doubles/floats from 10 families x precision 0..40 x 3 formats, integers of all widths (8/16-bit exhaustively), "
+            "non-empty destination streams, all compared byte for byte with printf; every mismatch is classified by an exact "
+            "decimal-expansion predicate so that recorded defect classes cannot hide a different defect.",
+            "glibc snprintf is exact; 2^64 doubles are sampled, floats are exhaustive only in the thorough tier", "3/C10"),
+    "C11": ("runtime round-trip monitor (bit comparison), exhaustive over all 2^32 floats in the thorough tier",
+            "format(17)->parse must be the identity on bit patterns: sampled doubles from every binade and the risky "
+            "neighbourhoods, and every float; no reference needed, the oracle is bit equality.",
+            "doubles are sampled (2^64 cannot be enumerated)", "3/C11"),
 }
 
 PENDING = {}
